@@ -9,7 +9,7 @@ from .drivers_ragged import rnd_lens, rnd_slice
 
 READ_KINDS = ["repr", "str", "iter", "tolist", "ravel", "sum", "nonzero", "ufunc", "colsum", "len", "shape", "size", "dtype", "lengths", "copy",
               "unique", "cumsum", "sort", "diff", "accumulate", "max", "mean", "argmax", "pad", "where", "concat", "colbroadcast", "zeros_like",
-              "colvalues", "getrow", "getelem", "rowcol", "any"]
+              "colvalues", "getrow", "getelem", "rowcol", "any", "rowmean"]
 
 
 def _lens(ob):
@@ -133,7 +133,7 @@ def gen_program(r, maxsteps=9, maxh=6, read_bias=0.2, assign_bias=0.2):
                 g = r.choice(live)
                 st = ["ufunc", "subtract", ["h", h], ["h", g]]
         else:
-            name = r.choice(["cumsum", "sort", "diff", "concat", "concat"])   # no value-dependent shapes (unique): see RaggedHeap.tla
+            name = r.choice(["cumsum", "sort", "diff", "concat", "concat", "astype"])   # no value-dependent shapes (unique): see RaggedHeap.tla
             if name == "concat":
                 g = r.choice(live)
                 ax = r.choice([0, 0, -1])
